@@ -125,7 +125,7 @@ WRITE_API = ('store', 'deleteObject', 'restore', 'undo', 'pack', 'tpc_begin',
 
 
 @rule('C09.R2', 'every write API of a read-only file storage refuses before '
-      'it has any effect', min_instances=7)
+      'it has any effect', props=['C06', 'C07'], min_instances=7)
 def r2(R):
     cls = R.prog.cls(FS)
     for meth in WRITE_API:
